@@ -26,9 +26,12 @@ type autoBind struct {
 }
 
 type seqCfg struct {
-	name     string
-	fold     bool
-	hidden   bool
+	name   string
+	fold   bool
+	hidden bool
+	// matcher, if set, is the hidden-files matcher of the hierarchy (and
+	// of the reference model) instead of the ".hid" prefix rule.
+	matcher  func(string) bool
 	nslots   int
 	slotX    int // slot that follows the most recently created directory (-1: none)
 	setup    func(c *mc.SeqCtx, s *st)
@@ -73,12 +76,16 @@ func newSt(c *mc.SeqCtx, cfg *seqCfg) *st {
 	w := newWorld()
 	s := &st{
 		cfg: cfg, w: w,
-		m:       &model{fold: cfg.fold, hiddenOn: cfg.hidden},
+		m:       &model{fold: cfg.fold, hiddenOn: cfg.hidden, hiddenFn: cfg.matcher},
 		slots:   make([]*mNode, cfg.nslots),
 		dirImpl: map[*mNode]virtual.PrepopulatedDirectory{}, dirOf: map[virtual.Directory]*mNode{},
 		leafImpl: map[*mNode]virtual.LinkableLeaf{}, leafOf: map[virtual.Leaf]*mNode{},
 	}
-	s.root = newRoot(w, cfg.fold, cfg.hidden)
+	if cfg.matcher != nil {
+		s.root = newRootMatcher(w, cfg.fold, cfg.matcher)
+	} else {
+		s.root = newRoot(w, cfg.fold, cfg.hidden)
+	}
 	s.m.beginOp()
 	rootNode := s.m.newDir(0, &mLazy{})
 	s.slots[0] = rootNode
@@ -94,13 +101,17 @@ func newSt(c *mc.SeqCtx, cfg *seqCfg) *st {
 func hiddenMatcher(name string) bool { return strings.HasPrefix(name, ".hid") }
 
 func newRoot(w *world, fold, hidden bool) virtual.PrepopulatedDirectory {
-	var normalizer virtual.ComponentNormalizer = virtual.CaseSensitiveComponentNormalizer
-	if fold {
-		normalizer = virtual.CaseInsensitiveComponentNormalizer
-	}
 	matcher := func(string) bool { return false }
 	if hidden {
 		matcher = hiddenMatcher
+	}
+	return newRootMatcher(w, fold, matcher)
+}
+
+func newRootMatcher(w *world, fold bool, matcher func(string) bool) virtual.PrepopulatedDirectory {
+	var normalizer virtual.ComponentNormalizer = virtual.CaseSensitiveComponentNormalizer
+	if fold {
+		normalizer = virtual.CaseInsensitiveComponentNormalizer
 	}
 	return virtual.NewInMemoryPrepopulatedDirectory(w, symlinkFactory{w}, w.logger, w.handles, sort.Sort, matcher, frozenClock{}, normalizer,
 		func(virtual.AttributesMask, *virtual.Attributes) {}, virtual.NoNamedAttributesFactory)
